@@ -64,8 +64,10 @@ def _trunc(r):
 
 
 def _tri(r):
-    lo = r.choice([0, -5.0, 2.5, 1000])
-    w = r.choice([1, 0.5, 10.0, 1e-3])
+    lo = r.choice([0, -5.0, 2.5, 1000, 1.7e9, 1e12])      # incl. windows at an epoch time: narrow relative to their position
+    w = r.choice([1, 0.5, 10.0, 1e-3, 2.0])
+    if not lo + w * 0.1 > lo:
+        w = 1.0
     hi = lo + w
     mode = r.choice([lo, hi, lo + w / 2, lo + w * 0.1])
     return [lo, mode, hi]
@@ -89,7 +91,7 @@ GEN = {
     "DistPearson6": lambda r: [_shape(r), _shape(r), _scale(r)],
     "DistPoisson": lambda r: [r.choice([1e-3, 0.5, 1.0, 1, 4.5, 30, 100, round(r.uniform(0.001, 100), 3), 700.0, 746, 1000.0, 2500])],
     "DistTriangular": _tri,
-    "DistUniform": lambda r: (lambda lo: [lo, lo + r.choice([1, 0.5, 1e-9, 1e9])])(r.choice([0, -5.0, 2.5, 1000.0])),
+    "DistUniform": lambda r: (lambda lo, w: [lo, lo + w if lo + w > lo else lo + 1.0])(r.choice([0, -5.0, 2.5, 1000.0, 1.7e9, 1e12]), r.choice([1, 0.5, 1e-9, 1e9])),
     "DistWeibull": lambda r: [_shape(r), _scale(r)],
 }
 
@@ -296,6 +298,22 @@ def run_case(case, ctx):
         if d.stream is not new:
             ctx.viol(f"stream-getter-after-repoint:{cls}", info)
             return
+    # ---- the same stream object re-seeded and assigned again (what a model does between replications with long-lived
+    # distribution objects): the draws that follow equal those of a fresh instance on an equally seeded stream
+    for pre in (1, 2, 3):
+        same, ref = CountingStream(seed), CountingStream(seed + 11)
+        d = _mk(cls, same, args)
+        for _ in range(pre):
+            d.draw()
+        same.set_seed(seed + 11)
+        d.stream = same
+        fresh = _mk(cls, ref, args)
+        ctx.count("reseed_and_reassign_checks")
+        for k in range(30):
+            a, b = d.draw(), fresh.draw()
+            if fx(a) != fx(b):
+                ctx.viol(f"reseeded-and-reassigned-differs-from-fresh:{cls}", {**info, "pre_draws": pre, "draw_index": k, "reassigned": fx(a), "fresh": fx(b)})
+                return
     # ---- splice sweep: every position the first draws consume x extreme uniforms (single and adjacent pairs)
     K = min(max(3 * per_draw, 4), 24)
     hits = 0
